@@ -7,6 +7,7 @@
 From Coq Require Import NArith ZArith List Bool Arith.
 From PLV Require Import Base.PyStr Tok.PState Parse.Nodes Parse.Parser Parse.ParseWire Parse.Stateful
                         Proofs.StatefulProofs.
+From PLV Require Gen.GenWalkerCtx.
 Import ListNotations.
 
 (** [Inv g]: every cached instance is what [LatexStandardArgumentParser(key)]
@@ -71,6 +72,15 @@ Proof.
   exact (proj1 counter_on_instance_differs).
 Qed.
 
+(** Table obligation, re-proved against the table regenerated from /repo on
+    every run: for every argument of the default walker database
+    (all macros, environments and specials), the parser kind decoded structurally from the live
+    parser object is [kind_of_spec] of its specification string for some
+    constructor fields — the model's mirror of [get_arg_parser_instance]
+    agrees with the live objects. *)
+Theorem C09_default_ctx_standard : ctx_standard Gen.GenWalkerCtx.default_ctx = true.
+Proof. exact default_ctx_standard. Qed.
+
 (** Non-vacuity.  A context declaring [\v] with a 'v' argument (string
     spelling), [\w] with get_standard_argument_parser('{', allow_pre_space=False)
     and [\x] with an explicit LatexStandardArgumentParser('[', allow_pre_space=False)
@@ -112,3 +122,4 @@ Print Assumptions C09_history_independent.
 Print Assumptions C09_state_irrelevant.
 Print Assumptions C09_context_unchanged.
 Print Assumptions C09_counter_on_instance_refuted.
+Print Assumptions C09_default_ctx_standard.
